@@ -152,6 +152,17 @@ Section Cylindrical.
     let r := radius x y in rotz (x / r) (y / r) (f r (atan2Q y x) z).
 End Cylindrical.
 
+(* ---- the same mapping made total: on the symmetry axis (r = 0) the toroidal angle is libm's atan2 of two
+   signed zeros: 0 when x is +0 (no rotation), +-pi when x is -0 (half turn).  [xneg] says that x is -0. ---- *)
+Definition toroidal_cs (xneg : bool) (x y r : Q) : Q * Q :=
+  if Qeq_bool r 0 then ((if xneg then - (1) else 1), 0) else (x / r, y / r).
+Definition vector_axisym_total (sqrtQ : Q -> Q) (xneg : bool) (f : Q -> Q -> vec) (x y z : Q) : vec :=
+  let r := radius sqrtQ x y in
+  let cs := toroidal_cs xneg x y r in rotz (fst cs) (snd cs) (f r z).
+Definition vector_cylindrical_total (sqrtQ : Q -> Q) (atan2Q : Q -> Q -> Q) (xneg : bool) (f : Q -> Q -> Q -> vec) (x y z : Q) : vec :=
+  let r := radius sqrtQ x y in
+  let cs := toroidal_cs xneg x y r in rotz (fst cs) (snd cs) (f r (atan2Q y x) z).
+
 (* quadrant of the toroidal angle decided in exact arithmetic (what atan2 must respect):
    0: phi = 0 (positive x axis)   1: 0 < phi < pi/2   2: phi = pi/2   3: pi/2 < phi < pi
    4: |phi| = pi (negative x axis) 5: -pi < phi < -pi/2  6: phi = -pi/2  7: -pi/2 < phi < 0
